@@ -244,10 +244,13 @@ impl ZmodN {
             }
             let (mi, c) = m[i + sz].overflowing_add(carryn);
             m[i + sz] = mi;
-            if c {
-                assert!(i + sz + 1 < m.len());
-                // FIXME: overflow
-                m[i + sz + 1] += u64::from(c);
+            // Propagate the carry as far as needed.
+            let mut c = c;
+            let mut idx = i + sz + 1;
+            while c {
+                assert!(idx < m.len());
+                (m[idx], c) = m[idx].overflowing_add(1);
+                idx += 1;
             }
         }
         let mut m: [u64; MINT_WORDS] = m[sz..sz + MINT_WORDS].try_into().unwrap();
